@@ -29,9 +29,10 @@ def plan(tier, seed):
 def check_case(res, c, tier):
     res.count("projects")
     S1 = c.snap
-    exp = build.expected_project(c.ad)
-    g = build.gate_diff(exp, S1)
+    g = c.gate
     desc = c.describe()
+    res.count("cases_with_further_api_calls", 1 if c.noise else 0)
+    res.count("further_api_calls", c.noise)
     if g:
         path, a, b = g[0]
         res.violation(f"C01:api-did-not-store:{snapshot.field_key(path)}",
